@@ -8,7 +8,7 @@ import threading
 import time
 
 DIR = os.environ.get('VERIF_INJECT_DIR')
-ENTRY = {('thread.py', '_run'), ('process.py', '_run'), ('remote.py', '_run_backend'), ('remote.py', '_run_frontend')}
+ENTRY = {('thread.py', '_run'), ('process.py', '_run'), ('remote.py', '_run_backend'), ('remote.py', '_run_frontend'), ('process.py', '_ctrl_fn')}
 SPIN = float(os.environ.get('VERIF_INJECT_SPIN', '1.5'))
 
 _armed = {}      # thread ident -> state dict
@@ -57,6 +57,8 @@ def _global(frame, event, arg):
             return None
         if code.co_name == '_run_frontend':
             name = name + '.front'      # the parent-side forwarding thread has its own spec
+        elif code.co_name == '_ctrl_fn':
+            name = name + '.ctrl'       # so has the child-side control thread of a process worker
         spec_path = os.path.join(DIR, name + '.spec.json')
         try:
             with open(spec_path) as f:
